@@ -576,7 +576,16 @@ class Program(object):
                 continue
             for root in cfg.exprs(n.id):
                 for sub in ast.walk(root):
-                    if not isinstance(sub, ast.Call) or self.pure_call(sub, func):
+                    if not isinstance(sub, ast.Call):
+                        continue
+                    # a local function sees the variables of the function around it: calling it hands them all over
+                    if isinstance(sub.func, ast.Name) and sub.func.id in func.locals:
+                        nested = [d for d in ast.walk(func.node) if isinstance(d, ast.FunctionDef) and d is not func.node
+                                  and d.name == sub.func.id]
+                        if nested and any(isinstance(y, ast.Name) and y.id in names for d in nested for y in ast.walk(d)):
+                            out.append((n.id, sub))
+                            continue
+                    if self.pure_call(sub, func):
                         continue
                     c_ = self.callee(sub, func)
                     if c_ is not None and c_[1].endswith('.__init__') and self._ctor_self_only(c_):
